@@ -1,6 +1,6 @@
 SPECIFICATION Spec
 CONSTANTS
   Msgs = {1, 2, 3}
-  MaxOps = 6
+  MaxOps = 5
 CHECK_DEADLOCK FALSE
 INVARIANTS InvType InvAtMostOnce InvNoInvention InvFifo InvAfterClose InvRecvErrOnlyDrained InvErrReturnsMessage
